@@ -1101,7 +1101,8 @@ func execRealBinary(sc *Scenario, env *Env, root string, refs []*lineRef, order 
 		}
 		cmd := exec.Command(bin, argv...)
 		cmd.Dir = startDir
-		outB, err := cmd.CombinedOutput()
+		outS, err := runChild(cmd, 5*time.Minute, nil)
+		outB := []byte(outS)
 		disk := NewSimDisk()
 		dirs := map[string]bool{}
 		for i := range sc.Lines {
